@@ -9,8 +9,10 @@ CONSTANTS
   KF_StaleFlags = FALSE
   KF_NoReloadMutex = FALSE
   DumpFile = ""
+  KF_PortFreedAfterDone = FALSE
   KF_MidEstablishLeak = FALSE
 INVARIANTS
+  NoSpuriousStartFailure
   FlagsClean
   AcceptOnlyBackendChanges
   NoOrphanConn
